@@ -9,6 +9,7 @@ import (
 	"fmt"
 	"reflect"
 	"sort"
+	"time"
 
 	"verifharness/fw"
 )
@@ -51,6 +52,19 @@ type c03BNode struct {
 	SkipS   []*c03BNode          `dials:"-"`
 	SkipAny any                  `dials:"-"`
 }
+
+// c03Priv is held BY VALUE in interface values: a struct with non-zero
+// unexported fields (which only a whole-struct assignment carries over) and
+// an exported reference that must still be deep-copied.
+type c03Priv struct {
+	Label  string
+	Ref    any
+	secret int
+	note   string
+}
+
+// c03Zone gives time.Time payloads a non-nil unexported *Location.
+var c03Zone = time.FixedZone("C03", 3600)
 
 type c03Fam struct {
 	name                                                   string
@@ -106,6 +120,7 @@ func c03FamOf(name string) *c03Fam {
 //
 //	nil | ptr I | node I (struct value copy) | slice L | arr L[0:2] | map I | mm I |
 //	amap I | aslice I | nilptr | nilmap | nilslice | int I | str I | leaf I | pp I |
+//	time I (time.Time by value; odd I: with a *Location) | priv I (c03Priv by value, Ref -> node I) |
 //	view I L[lo,hi] ([]*node window Backs[I][lo:hi]) | aview I L[lo,hi] ([]any window ASlices[I][lo:hi])
 type c03AnyPlan struct {
 	K string `json:"k"`
@@ -362,6 +377,14 @@ func (b *c03Built) anyValue(a *c03AnyPlan) any {
 			return []any(nil)
 		}
 		return b.aslices[a.I]
+	case "time":
+		t := time.Date(2024, 1, 2, 3, 4, 5, 600+a.I, time.UTC)
+		if a.I%2 == 1 {
+			t = t.In(c03Zone)
+		}
+		return t
+	case "priv":
+		return c03Priv{Label: fmt.Sprintf("p%d", a.I), Ref: b.nodeOrNil(a.I).Interface(), secret: 4200 + a.I, note: "private"}
 	case "view":
 		if a.I < 0 || a.I >= len(b.backs) || len(a.L) != 2 {
 			return reflect.Zero(f.slice).Interface()
@@ -407,7 +430,7 @@ func c03GenAny(r *fw.Rand, p *c03Plan, n int, asliceBelow int) c03AnyPlan {
 		k string
 		w int
 	}
-	ks := []wk{{"ptr", 25}, {"node", 8}, {"slice", 10}, {"arr", 6}, {"nilptr", 5}, {"nilmap", 2}, {"nilslice", 2}, {"int", 4}, {"str", 3}, {"pp", 4}}
+	ks := []wk{{"ptr", 25}, {"node", 8}, {"slice", 10}, {"arr", 6}, {"nilptr", 5}, {"nilmap", 2}, {"nilslice", 2}, {"int", 4}, {"str", 3}, {"pp", 4}, {"time", 5}, {"priv", 6}}
 	if len(p.Maps) > 0 {
 		ks = append(ks, wk{"map", 8})
 	}
@@ -441,8 +464,10 @@ func c03GenAny(r *fw.Rand, p *c03Plan, n int, asliceBelow int) c03AnyPlan {
 	}
 	a := c03AnyPlan{K: kind}
 	switch kind {
-	case "ptr", "node", "pp":
+	case "ptr", "node", "pp", "priv":
 		a.I = r.Intn(n)
+	case "time":
+		a.I = r.Intn(4)
 	case "slice":
 		l := r.Range(0, 3)
 		a.L = make([]int, l)
